@@ -128,6 +128,18 @@ def c12_libs(seeds, nsynth):
         "declarations": [{"decl": "class Token"}, {"decl": "void touch(int n)"},
                          {"decl": "namespace inner", "declarations": [{"decl": "class Deep"},
                                                                       {"decl": "int depth()"}]}]}}
+    # namespaces nested two deep, two of them with the same last component: one Fortran module each
+    libs["special/nested-ns"] = {"fname": "nestns.yaml", "yaml": {
+        "library": "nestns", "cxx_header": "nestns.hpp", "options": {"debug": True},
+        "declarations": [
+            {"decl": "int top(int n)"},
+            {"decl": "namespace alpha", "declarations": [
+                {"decl": "int amid(int n)"},
+                {"decl": "namespace detail", "declarations": [{"decl": "int adeep(int n)"},
+                                                              {"decl": "class Core", "declarations": [
+                                                                  {"decl": "Core()"}, {"decl": "int spin(int n)"}]}]}]},
+            {"decl": "namespace beta", "declarations": [
+                {"decl": "namespace detail", "declarations": [{"decl": "double bdeep(double x)"}]}]}]}}
     for i in range(nsynth):
         rng = seeds.rng("c12synth", i)
         text, meta = synth.synth_library(rng, i)
@@ -750,6 +762,18 @@ def execute_history_c12(spec, camp):
             tainted_lang[lang] = tainted
             if tainted:
                 probe("tainted_by_trailing_plus")
+            # One Fortran module is written per namespace: its blocks are all named after that one
+            # namespace, so a user who reads one block name knows the others (docs/output.rst).
+            if lang == "f":
+                quals = {}
+                for p, text in out.get(lang, {}).items():
+                    for name, _body in parse_blocks(text)[0]:
+                        if name.startswith("namespace."):
+                            quals.setdefault(p, set()).add(name.split(".")[1])
+                for p, q in sorted(quals.items()):
+                    if len(q) > 1:
+                        vs.append({"inv": "I12.8-namespace-block-names-disagree", "kind": "f", "path": p,
+                                   "detail": {"qualifiers_in_one_module": sorted(q)}})
             # expected body per block
             for name, (p, body) in sorted(uniq.items()):
                 got = norm_body(body)
